@@ -88,7 +88,8 @@ class Check(PropertyCheck):
             "graph builders: node list and typed edge list (in DiGraph iteration order) of the real graph compared with the "
             "Lean model and, as sets, with the edges the documentation prescribes recomputed from the instance; then a random "
             "complete dispatcher-built schedule: solved disjunctive graph compared with the model, and for positive durations "
-            "networkx says it is a DAG whose longest duration-weighted path equals the makespan; non-trivial = instance "
+            "networkx says it is a DAG whose longest duration-weighted path equals the makespan; all graphs built in the "
+            "scenario (two instances of different size in 40% of them) are re-inspected after every build (a build must not change an earlier graph); non-trivial = instance "
             "with >=2 jobs and >=2 machines")
     ASSUMPTIONS = ["instances are valid with no empty job", "networkx DiGraph semantics (insertion order, attribute overwrite)"]
     QUICK_N = 150
@@ -107,6 +108,10 @@ class Check(PropertyCheck):
                 tr.take(j)
                 lines.append(f"disp {j} {p} {m}")
             lines.append("solved")
+            if rng.random() < 0.4:
+                # a second, differently sized instance in the same process: its graphs must not disturb the first one's
+                _, jobs2 = gen.gen_instance(rng, max_jobs=3, max_ops=3)
+                lines += [instance_line(jobs2)] + ["graph " + b for b in rng.sample(BUILDERS, 2)] + ["graph disjunctive"]
             yield Scenario(lines, {"family": family, "flexible": gen.is_flexible(jobs), "zero_dur": gen.has_zero(jobs),
                                    "jobs": len(jobs)})
 
@@ -130,7 +135,14 @@ class Check(PropertyCheck):
             for i, node in enumerate(g.nodes):
                 if node.node_id != i:
                     res.append(("node-ids", f"{b}: node at position {i} has id {node.node_id}"))
-        elif line == "solved":
+        if line.startswith("graph ") or line == "solved":
+            from impl_ext import ImplGraph, fmt_graph, graph_integrity
+            for g0, out0, integ0, what in ImplGraph.GRAPH_LOG[:-1]:
+                if fmt_graph(g0) != out0 or graph_integrity(g0) != integ0:
+                    res.append(("earlier-graph-changed", f"after `{line}`: a {what} graph built earlier in this process "
+                                f"changed: was `{integ0[:160]}` now `{graph_integrity(g0)[:160]}`"))
+                    break
+        if line == "solved":
             import networkx as nx
             g = impl.last_graph
             sched = impl.dispatcher.schedule
